@@ -74,6 +74,7 @@ def freshness(rep, F):
             aggs = [e for e in p.trace if e[0] == "agg" and e[1] == GGm]
             if len(aggs) != 1:
                 ok = False
+                rep.bad("R17.1", "graph-clone:shared-graph", "a path of GeometryGraph::clone_for_arg_index returns %s instead of a graph rebuilt around PlanarGraph::clone_for_arg_index: a derived Clone copies the Rc handles, so the relate call works on (and mutates) the cached edges [path %s]" % (show(p.ret)[:80], show_pc(p.pc)[:80]), where=fn.loc())
                 continue
             a = F.adts[GGm]["variants"][0]["fields"]
             vals = dict(zip([f["name"] for f in a], aggs[0][3]))
@@ -125,6 +126,26 @@ def freshness(rep, F):
                 lam = Lam(opaque(F), cls[0], 1)
                 if lam.paths:
                     fresh = all(re.match(r"Rc::<T>::new\(RefCell::<T>::new\(", show(q.ret)) for q in lam.paths)
+                    # ... and what is re-allocated is a complete copy of the cached edge (Clone of the borrowed Edge), not an edge rebuilt from some
+                    # of its parts: the self-node intersections recorded at prepare time live in the edge and are not recomputed for the clone
+                    def is_whole_copy(t, d=0):
+                        """Rc::new(RefCell::new(X)) with X = the borrowed cached edge itself (through clone / deref / borrow wrappers only)"""
+                        for _ in range(30):
+                            if not isinstance(t, tuple):
+                                return False
+                            if t[0] in ("&", "deref"):
+                                t = t[1]
+                            elif t[0] == "call" and t[1].rsplit("::", 1)[-1] in ("new", "clone", "deref", "borrow", "as_ref", "to_owned") and len(t[2]) == 1 and "Edge" not in t[1].rsplit("::", 2)[-2:][0]:
+                                t = t[2][0]
+                            elif t[0] == "bound":
+                                return True
+                            else:
+                                return False
+                        return False
+                    whole = all(is_whole_copy(q.ret) for q in lam.paths)
+                    if fresh and not whole:
+                        fresh = False
+                        rep.bad("R17.1", "planar:edge-copy", "the re-allocated edge is %s, not a clone of the whole cached edge: state recorded in the edge at prepare time (self-node intersections) is lost while the clone is marked as already self-noded" % show(lam.paths[0].ret)[:140], where=fn.loc())
             if fresh:
                 rep.ok("R17.1", key + ":edges-reallocated", sample=es[:120])
             else:
